@@ -91,7 +91,7 @@ void operator delete[](void *p, size_t) noexcept { operator delete(p); }
 #endif
 
 // ---------------------------------------------------------------------------------------------- faults
-struct Fault { int kind; long off; long long a; long long b; };   // kind: 0 truncate(off) 1 byte(off, value) 2 u32(off, value) 3 varint(off, pattern id) 4 version(maj,min)
+struct Fault { int kind; long off; long long a; long long b; };   // kind: 0 truncate(off) 1 byte(off, value) 2 u32(off, value) 3 varint(off, pattern id) 4 version(maj,min) 10 collapse(off, value: the same u32 at off and off+4)
                                                                   //       5 header byte (off, value) 6 multi (seed, count) 7 splice (cut, other index) 8 none
 static std::vector<char> apply(const std::vector<char> &b, const Fault &f, const std::vector<std::vector<char>> *all) {
   std::vector<char> c = b;
@@ -110,6 +110,7 @@ static std::vector<char> apply(const std::vector<char> &b, const Fault &f, const
       break;
     }
     case 4: if (c.size() > 6) { c[5] = (char)f.a; c[6] = (char)f.b; } break;
+    case 10: for (int k = 0; k < 8 && f.off + k < (long)c.size(); ++k) c[f.off + k] = (char)((f.a >> (8 * (k & 3))) & 0xFF); break;   // range collapse: the same u32 at off and off + 4 (two adjacent stored bounds)
     case 5: if (f.off < (long)c.size()) c[f.off] = (char)f.a; break;
     case 6: { vrt::Rng r((uint64_t)f.a); for (int k = 0; k < f.b && !c.empty(); ++k) { const size_t o = r.below(c.size()); c[o] = (char)(r.coin(1, 3) ? r.range(0, 255) : (c[o] ^ (1 << r.range(0, 7)))); } break; }
     case 9: c.resize(std::min<size_t>(c.size(), (size_t)f.off)); c.insert(c.end(), (size_t)f.a, (char)0x80); break;   // everything from off on replaced by a long run of continuation bytes
@@ -140,6 +141,12 @@ static std::vector<Fault> enumerate(const std::vector<char> &b, int level, uint6
   const long step = level >= 2 ? (!bigfile ? 1 : (L + 999) / 1000) : (L <= 400 ? 1 : (L <= 1500 ? 5 : 23));
   const long phase = (long)(r.below((uint64_t)step));
   fs.push_back({8, 0, 0, 0});
+  // range collapse (F29 / F30): two adjacent 32-bit bounds set to the same extreme value -- a wrap range of 1 turns the stream's small corrections into
+  // values at the corners of int32, which every integer predictor downstream then has to survive. Every offset of every stream up to 6000 bytes: INT32_MAX in both tiers, INT32_MIN and 0 in the
+  // thorough tier; alone with VERIF_ONLY_COLLAPSE=1.
+  static const bool only_collapse = getenv("VERIF_ONLY_COLLAPSE") != nullptr;
+  if (!bigfile) for (long o = 8; o + 8 <= L; ++o) { fs.push_back({10, o, 0x7FFFFFFFll, 0}); if (level >= 2 || only_collapse) for (long long w : {0x80000000ll, 0ll}) fs.push_back({10, o, w, 0}); }
+  if (only_collapse) return fs;
   // streams named c* (constrained multi-parallelogram grids): counts that end on a word boundary of the crease-flag vectors, at every offset
   if (!name.empty() && name[0] == 'c') for (long o = 0; o < L; ++o) for (int val : {64, 128, 192}) if (val != (unsigned char)b[o]) fs.push_back({1, o, val, 0});
   for (long t = 0; t < L; t += (level >= 2 ? step : (L <= 600 ? 1 : 3))) fs.push_back({0, t, 0, 0});
